@@ -846,6 +846,19 @@ struct Mixed {
                 absent = true;
                 return true;
             }
+            // is the image chunked, and how?  Asked through an id of its own, which is released again: the id the reads go
+            // through below is then a fresh one (asking for the chunk description opens the image's element for reading)
+            HDF_CHUNK_DEF gcd;
+            int32         gfl = HDF_NONE;
+            memset(&gcd, 0, sizeof gcd);
+            {
+                int32 r0 = GRselect(grid, ix);
+                if (MX("GRselect", r0 == FAIL))
+                    return true;
+                if (GRgetchunkinfo(r0, &gcd, &gfl) == FAIL)
+                    gfl = HDF_NONE;
+                MX("GRendaccess", GRendaccess(r0) == FAIL);
+            }
             int32 ri = GRselect(grid, ix);
             if (MX("GRselect", ri == FAIL))
                 return true;
@@ -856,6 +869,20 @@ struct Mixed {
                 ctx.tr((uint64_t)nt);
                 ctx.trb(dims, 8);
                 int32                start[2] = {0, 0};
+                {
+                    // a chunked image: its first chunk, read as a whole, before anything else has been read through this id
+                    HDF_CHUNK_DEF &cd = gcd;
+                    int32          fl = gfl, org[2] = {0, 0};
+                    if (fl != HDF_NONE) {
+                        int32 *cl = (fl & HDF_COMP) ? cd.comp.chunk_lengths : cd.chunk_lengths;
+                        if (cl[0] > 0 && cl[1] > 0 && cl[0] <= 4096 && cl[1] <= 4096) {
+                            std::vector<uint8_t> cb((size_t)(cl[0] * cl[1] * nc * DFKNTsize(nt)) + 16);
+                            if (!MX("GRreadchunk", GRreadchunk(ri, org, cb.data()) == FAIL))
+                                ctx.trb(cb.data(), (size_t)(cl[0] * cl[1] * nc * DFKNTsize(nt)));
+                            ctx.probe("gr-chunk-read-first");
+                        }
+                    }
+                }
                 std::vector<uint8_t> buf((size_t)(dims[0] * dims[1] * nc * DFKNTsize(nt)) + 16);
                 intn                 r = GRreadimage(ri, start, NULL, dims, buf.data());
                 ctx.tr((uint64_t)r);
